@@ -237,7 +237,15 @@ func c13Random(c *Ctx) {
 			}
 			s := randSeq(r, []byte(dna8), l)
 			k.Input("seq", s)
+			heldPacked := sequtil.DNATo2Bit(nil, s)
+			heldUnpacked := sequtil.DNAFrom2Bit(nil, heldPacked)
 			checkPack(k, s, true)
+			other := randSeq(r, []byte(dna8), l)
+			sequtil.DNAFrom2Bit(nil, sequtil.DNATo2Bit(nil, other))
+			if !bytes.Equal(heldPacked, refPack(s)) || !bytes.Equal(heldUnpacked, refUnpack(refPack(s))) {
+				k.Failf("result-not-stable", "a DNATo2Bit/DNAFrom2Bit result changed after later calls")
+			}
+			k.Count("held_results_verified", 1)
 			if l > 0 {
 				k.Nontrivial(s)
 			}
@@ -470,7 +478,27 @@ func c14Frames(c *Ctx) {
 			r := k.Rand()
 			s := randSeq(r, []byte(dna8), r.IntN(5001))
 			k.Input("seq", s)
+			heldFrames := sequtil.TranslateReadingFrames(s)
+			heldTr := sequtil.Translate(nil, s[:len(s)/3*3])
 			checkFrames(k, s)
+			other := randSeq(r, []byte(dna8), len(s))
+			fr2 := sequtil.TranslateReadingFrames(other)
+			for f := range fr2 { // scribbling over one result must not reach another
+				for j := range fr2[f] {
+					fr2[f][j] = '#'
+				}
+			}
+			sequtil.Translate(nil, other[:len(other)/3*3])
+			for f := 0; f < 3; f++ {
+				sub := s[min(f, len(s)):]
+				if w := refTranslate(sub[:len(sub)/3*3]); !bytes.Equal(heldFrames[f], w) {
+					k.Failf("result-not-stable", "frame %d of an earlier TranslateReadingFrames result changed after later calls", f)
+				}
+			}
+			if w := refTranslate(s[:len(s)/3*3]); !bytes.Equal(heldTr, w) {
+				k.Failf("result-not-stable", "an earlier Translate result changed after later calls")
+			}
+			k.Count("held_results_verified", 1)
 			k.Nontrivial(s)
 		})
 		idx++
